@@ -92,6 +92,7 @@ type vvCaseFile struct {
 	GBits   int               `json:"gbits"`  // bit length of the giant unit
 	Tamper  bool              `json:"tamper"` // run the tamper steps after accepted cases
 	Raw     int               `json:"raw"`    // number of seeded byte-level mutants (C05)
+	RawHex  []string          `json:"rawhex"` // replay: exact byte strings to decode and validate
 }
 
 // ---------------------------------------------------------------------------------------------
@@ -131,6 +132,8 @@ var vvSlotDefs = map[string]vvSlotDef{
 	"o3":  {asset: "OTH", typ: "script", amt: vvAmt{N: 3}, nk: 3, thr: 2},
 	"oh":  {asset: "OTH", typ: "script", amt: vvAmt{H: 1}, nk: 1, thr: 1},
 	"oh2": {asset: "OTH", typ: "script", amt: vvAmt{H: 1}, nk: 1, thr: 1},
+	"k64a": {asset: "OTH", typ: "script", amt: vvAmt{N: 1}, nk: 64, thr: 64},
+	"k64b": {asset: "OTH", typ: "script", amt: vvAmt{N: 1}, nk: 64, thr: 33},
 }
 
 // outputs consumed while the node / withdrawal history of the world is built (not in the table)
@@ -354,8 +357,8 @@ func vvNewWorld(t testing.TB, name string, seed int64, gbits int) *vvWorld {
 	}
 	w.store = store
 	rng := rand.New(rand.NewSource(seed*1000003 + 7))
-	// huge unit: fits the default capacity (2^256-1 units) three times over
-	hb := 200 + rng.Intn(50)
+	// huge unit: fits the default capacity (about 2^222.8 units) several times over
+	hb := 180 + rng.Intn(40)
 	w.hval = new(big.Int).Sub(new(big.Int).Lsh(big.NewInt(1), uint(hb)), big.NewInt(int64(rng.Intn(1000))))
 	if gbits < 300 {
 		gbits = 300
@@ -1208,6 +1211,24 @@ func TestVerifValidate(t *testing.T) {
 	}
 	if file.Raw > 0 && len(file.Cases) > 0 {
 		r.runRaw(file.Raw)
+	}
+	for _, h := range file.RawHex {
+		var m []byte
+		if _, err := fmt.Sscanf(h, "%x", &m); err != nil {
+			t.Fatalf("rawhex: %v", err)
+		}
+		ver, err := common.UnmarshalVersionedTransaction(m)
+		if err != nil {
+			r.tr.Emit(vM{"ev": "Undecodable", "id": 0, "why": vvClip(err.Error())})
+			continue
+		}
+		w := r.world("B")
+		for _, ts := range []uint64{w.lateTs, w.epoch + 1} {
+			for _, fork := range []bool{false, true} {
+				res, detail := vCall(func() error { return ver.Validate(w.store, ts, fork) })
+				r.tr.Emit(vM{"ev": "Raw", "res": res, "detail": vvClip(detail), "hex": h})
+			}
+		}
 	}
 }
 
